@@ -769,6 +769,21 @@ func (root *Root) formReflectArgs(
 	}
 	mt := method.Type()
 	args = make([]reflect.Value, 0, fd.args.Len()+1)
+	// The method was found on the Go type of the first value seen for the
+	// type, later values may be pointers to that type or the other way
+	// around.
+	if rt := mt.In(0); ov.Type() != rt {
+		switch {
+		case ov.Kind() == reflect.Ptr && ov.Type().Elem() == rt && !ov.IsNil():
+			ov = ov.Elem()
+		case rt.Kind() == reflect.Ptr && rt.Elem() == ov.Type():
+			pv := reflect.New(ov.Type())
+			pv.Elem().Set(ov)
+			ov = pv
+		default:
+			return nil, []error{resWarn(field.line, field.col, "a %s can not be resolved as a %s", ov.Type(), rt)}
+		}
+	}
 	args = append(args, ov)
 	for i, a := range fd.args.list {
 		var pt reflect.Type
